@@ -49,12 +49,21 @@ func loopBodyEntry(f *ssa.Function, inBody ssa.Instruction) (*ssa.BasicBlock, *s
 	cyc := cycleOf(b)
 	var header *ssa.BasicBlock
 	for x := range cyc {
-		if len(x.Instrs) > 0 {
-			if _, ok := x.Instrs[0].(*ssa.Phi); ok && x.Dominates(b) {
-				if header == nil || header.Dominates(x) {
-					header = x
-				}
+		if !x.Dominates(b) {
+			continue
+		}
+		// a loop header has a back edge from a block it dominates
+		back := false
+		for _, pr := range x.Preds {
+			if x.Dominates(pr) {
+				back = true
 			}
+		}
+		if !back {
+			continue
+		}
+		if header == nil || header.Dominates(x) {
+			header = x
 		}
 	}
 	if header == nil {
@@ -62,7 +71,7 @@ func loopBodyEntry(f *ssa.Function, inBody ssa.Instruction) (*ssa.BasicBlock, *s
 	}
 	// body entry: successor of header inside the cycle
 	for _, s := range header.Succs {
-		if cyc[s] && s != header {
+		if cyc[s] && s != header && (s == b || s.Dominates(b) || reachBlocks(s, false)[b]) {
 			return header, s
 		}
 	}
